@@ -29,25 +29,17 @@ def fuzz(bin, quick_runs=200000, thorough_runs=3000000, quick_jobs=2, thorough_j
 
 
 PROPS = {}
+HOOK_COMMITS = []
+NOT_CLAIMED = {}
 
-PROPS['C15'] = dict(
-    parts=[rc('C15_codec')],
-    floor=dict(quick=1000, thorough=10000),
-    rule=("Generated: a random byte array for EVERY length 0..1024 (Base64/hex: encode == independent RFC 4648 / hex reference, "
-          "decode(encode(x)) == x through every overload, also with space/TAB/CR/LF inserted at generated positions) plus rapidcheck "
-          "arrays and sampled sizes up to 1 MiB (4 MiB thorough); SHA-1 for EVERY message length 0..260 x several contents plus "
-          "sampled sizes (8 MiB thorough) through all four overloads against an independent FIPS 180-4 implementation; "
-          "Url::decode(Url::encode(s,mode)) == s for NUL-free byte strings in both modes incl. all single bytes and hot triples, "
-          "output alphabet checked and decoded by a reference decoder; parseQuery(params(d)) == d for generated dictionaries "
-          "with non-empty keys; hostile decoder input: ALL strings of length <= 6 (quick) / 8 (thorough) over "
-          "{A z 9 + / = SP LF * 0x80} for Base64, {0 9 a F g SP} for hex, {% 4 a G 0 z +} for percent-decoding, plus random longer "
-          "ones, inputs in exact-size heap blocks under ASan, result length >= 0 and <= input length. "
-          "Non-trivial: Base64 length not a multiple of 3; SHA-1 length within 9 bytes of a 64-byte block edge; percent strings "
-          "with a non-alphanumeric byte; dictionaries with >= 2 entries; hostile strings with '=' not at the end / odd length or "
-          "non-hex digit / containing '%'. Distinct = distinct FNV-1a hash of the case (hashed parts) or distinct by construction "
-          "(enumerated parts)."),
-    assumptions=["the harness's reference Base64/hex/percent/SHA-1 implementations are right (audited against python's base64, binascii, "
-                 "urllib.parse and hashlib by `vf audit`)",
-                 "AddressSanitizer reports every out-of-bounds access to heap blocks sized exactly to the input",
-                 "decodeBase64(ptr, n) is only called with n == strlen(ptr) or n == -1 (NUL-terminated text, as all library callers do)"],
-)
+
+def load():
+    """every lib/props/Cxx.py defines PROP (see lib/props/C15.py)"""
+    import importlib.util, os, glob
+    d = os.path.join(os.path.dirname(os.path.abspath(__file__)), 'props')
+    for f in sorted(glob.glob(os.path.join(d, 'C*.py'))):
+        pid = os.path.basename(f)[:-3]
+        spec = importlib.util.spec_from_file_location('props_' + pid, f)
+        m = importlib.util.module_from_spec(spec)
+        spec.loader.exec_module(m)
+        PROPS[pid] = m.PROP
